@@ -8,8 +8,7 @@
    What is proved are the parts of `strict` that are invariants of the encoder state (string table, code pages,
    header) and the value-splitting lemma, each for ALL trees / languages; the grammar-level clauses (balance of END,
    denotation of the whole byte string) are checked by the strict decoder oracle on the C's bytes and have no theorem
-   yet (they need the Coq `Spec.decode` of C04, which is another file).  The `_partial` suffix marks statements that
-   carry a hypothesis the full property does not have. *)
+   yet (they need the Coq `Spec.decode` of C04, which is another file). *)
 From Coq Require Import List NArith.
 From Wbxml Require Import Model.Codec Model.EncWbxml Proofs.EncWbxmlProofs.
 Import ListNotations.
@@ -38,9 +37,9 @@ Print Assumptions C06_switch_page_attrs.
 
 (* wbxml_strtbl_add_element preserves: offsets = prefix sums of (len + 1), entries NUL-free, running length = sum;
    the index it returns is the offset of an entry holding exactly the string *)
-Theorem C06_strtbl_add_preserves_inv : forall tbl tlen s alias idx tbl' tlen',
+Theorem C06_strtbl_add_preserves_inv : forall tbl tlen s idx tbl' tlen',
   strtbl_inv tbl tlen -> nul_free s -> tlen + len s + 1 < 4294967296 ->
-  strtbl_add tbl tlen s alias = (idx, tbl', tlen') ->
+  strtbl_add tbl tlen s = (idx, tbl', tlen') ->
   strtbl_inv tbl' tlen' /\ (exists e, In e tbl' /\ s_off e = idx /\ s_str e = s) /\
   (exists ext, tbl' = tbl ++ ext) /\ tlen <= tlen'.
 Proof. exact strtbl_add_inv. Qed.
@@ -64,34 +63,23 @@ Theorem C06_strtbl_offsets_resolve : forall tbl e,
 Proof. exact (ref_str_resolves 0). Qed.
 Print Assumptions C06_strtbl_offsets_resolve.
 
-(* END TO END over the whole tree walk (every language, every tree, embedded trees, literals added on the way):
-   the final running length is exactly the size of the final table and all offsets are its prefix sums.
-   PARTIAL: needs keep-ws or no string table.  Without that hypothesis the statement is FALSE for the code as it is
-   (next theorem, defect D7); once the table owns its strings (props/C06/D7-fix.patch + model patch) the hypothesis
-   `nac` of the underlying lemma parse_nodes_ok holds for all options and the restriction goes away.
+(* END TO END over the whole tree walk (every language, every option tuple, every tree, embedded trees, literals added
+   on the way): the final running length — the one the header declares — is exactly the size of the final table and all
+   offsets are its prefix sums.  FULL since the repair of D7 (/repo 6829a7f): the table owns its strings, so no step
+   can change an entry (before the repair this statement was refuted by the model for string table on + keep-ws off;
+   the witness d7_tree is kept as the example at the end of this file).
    (bnd: the table is smaller than 2^32 octets — WB_ULONG arithmetic.) *)
-Theorem C06_strtbl_exact_partial : forall tbl l o roots body st,
-  o_keep_ws o = true \/ o_use_strtbl o = false ->
+Theorem C06_strtbl_exact : forall tbl l o roots body st,
   enc_body tbl l o roots = EOk (body, st) -> bnd st -> tinv st.
 Proof. exact enc_body_strtbl_exact. Qed.
-Print Assumptions C06_strtbl_exact_partial.
+Print Assumptions C06_strtbl_exact.
 
-(* the general step lemma behind it, usable from any state in which no table entry shares a text node's buffer *)
+(* the general step lemma behind it, from any state: a walk only appends entries, and keeps the invariant *)
 Theorem C06_strtbl_walk_invariant : forall tbl e p ns st b st',
-  parse_nodes tbl e p ns st = EOk (b, st') -> nac e st ->
-  (ext st st' /\ nac e st') /\ (tinv st -> bnd st' -> tinv st').
+  parse_nodes tbl e p ns st = EOk (b, st') ->
+  ext st st' /\ (tinv st -> bnd st' -> tinv st').
 Proof. exact (fun tbl e p ns st => parse_nodes_ok tbl e p ns st). Qed.
 Print Assumptions C06_strtbl_walk_invariant.
-
-(* REFUTED for the current code (D7): string table on, keep-ws off, a text with surrounding blanks occurring twice:
-   the running length (declared in the header) differs from the size of the table that is written.
-   Witness d7_tree = <wml><p>  abcd </p><p>  abcd </p><p>wxyz1</p><p>wxyz1</p></wml>; replayed on the C by the
-   check (corpus/C06.txt, generated kind text-d7): pending finding. *)
-Theorem C06_strtbl_length_exact_refuted :
-  exists tbl l o roots body st,
-    enc_body tbl l o roots = EOk (body, st) /\ strtbl_len st <> tbl_size (strtbl st).
-Proof. exact strtbl_exact_refuted. Qed.
-Print Assumptions C06_strtbl_length_exact_refuted.
 
 (* header + table: the table written after the declared length has exactly that length (numeric public id) *)
 Theorem C06_header_strtbl_length_exact : forall e st,
@@ -122,25 +110,36 @@ Theorem C06_header_version : forall e st, exists r, fill_header e st = u8 (e_ver
 Proof. exact fill_header_version. Qed.
 Print Assumptions C06_header_version.
 
+(* numeric public id of the language (not anonymous): version, id, [charset 106 — not in WBXML 1.0], table length, table *)
 Theorem C06_header_numeric_public_id : forall e st,
-  no_pid e = true ->
-  fill_header e st = [u8 (e_version e)] ++ mb_write (bl_pub_num (e_lang e)) ++ mb_write 106 ++ mb_write (strtbl_len st)
+  e_anonymous e = false -> no_pid e = true ->
+  fill_header e st = [u8 (e_version e)] ++ mb_write (bl_pub_num (e_lang e)) ++ header_charset e ++ mb_write (strtbl_len st)
                      ++ (if e_use_strtbl e then strtbl_construct (strtbl st) else []).
-Proof. exact fill_header_numeric. Qed.
+Proof. exact fill_header_numeric_lang. Qed.
 Print Assumptions C06_header_numeric_public_id.
+
+(* the charset field is UTF-8 (106) for versions 1.1 - 1.3 and absent for version 1.0 *)
+Theorem C06_header_charset : forall e,
+  (e_version e = 0 -> header_charset e = []) /\ (e_version e <> 0 -> header_charset e = [106]).
+Proof.
+  intros e. unfold header_charset. split; intros H.
+  - now rewrite H.
+  - apply N.eqb_neq in H. now rewrite H.
+Qed.
+Print Assumptions C06_header_charset.
 
 Theorem C06_header_textual_public_id_without_strtbl : forall e st p,
   bl_pub_num (e_lang e) = 1 -> e_anonymous e = false -> bl_pub_text (e_lang e) = Some p -> e_use_strtbl e = false ->
-  fill_header e st = [u8 (e_version e)] ++ ([0] ++ mb_write 0) ++ mb_write 106 ++ mb_write (u32 (len p + 1)) ++ (p ++ [0]).
+  fill_header e st = [u8 (e_version e)] ++ ([0] ++ mb_write 0) ++ header_charset e ++ mb_write (u32 (len p + 1)) ++ (p ++ [0]).
 Proof. exact fill_header_textual_nostrtbl. Qed.
 Print Assumptions C06_header_textual_public_id_without_strtbl.
 
 (* ---- C07, WBXML half --------------------------------------------------------------------------- *)
 
-(* an anonymous document carries public id 0x01 'unknown' and no id string *)
+(* an anonymous document of ANY language carries public id 0x01 'unknown' and no id string *)
 Theorem c07_wbxml_anonymous_header : forall e st,
-  e_anonymous e = true -> bl_pub_num (e_lang e) = 1 ->
-  fill_header e st = [u8 (e_version e); 1] ++ mb_write 106 ++ mb_write (strtbl_len st)
+  e_anonymous e = true ->
+  fill_header e st = [u8 (e_version e); 1] ++ header_charset e ++ mb_write (strtbl_len st)
                      ++ (if e_use_strtbl e then strtbl_construct (strtbl st) else []).
 Proof. exact fill_header_anonymous. Qed.
 Print Assumptions c07_wbxml_anonymous_header.
@@ -158,11 +157,12 @@ Theorem c07_wbxml_body_independent_of_version : forall tbl l v1 v2 s k a roots,
 Proof. exact c07_body_independent_of_version. Qed.
 Print Assumptions c07_wbxml_body_independent_of_version.
 
-(* hypotheses are satisfiable: a tree on which the end-to-end invariant applies and one that embeds a tree *)
-Example C06_example_keepws :
-  exists body st, enc_body [] d7_lang (mk_opts 3 true true false) d7_tree = EOk (body, st) /\ tinv st.
+(* the former D7 witness (repeated text with surrounding blanks, string table on, keep-ws off) now satisfies it:
+   the table holds the untrimmed string, declared length 8 + 6 = 14 = table written *)
+Example C06_example_former_d7_witness :
+  exists body st, enc_body [] d7_lang (mk_opts 3 true false false) d7_tree = EOk (body, st) /\ tinv st /\ strtbl_len st = 14.
 Proof.
-  eexists. eexists. split; [vm_compute; reflexivity|]. split; vm_compute; auto.
+  eexists. eexists. split; [vm_compute; reflexivity|]. split; [split; vm_compute; auto|vm_compute; reflexivity].
 Qed.
 
 (* textual public id with the string table in use: `00 index`, the index is the offset of a table entry that holds the
@@ -170,8 +170,8 @@ Qed.
 Theorem C06_header_textual_public_id_with_strtbl : forall e st p,
   bl_pub_num (e_lang e) = 1 -> e_anonymous e = false -> bl_pub_text (e_lang e) = Some p -> e_use_strtbl e = true ->
   exists idx tbl tlen,
-    strtbl_add (strtbl st) (strtbl_len st) p None = (idx, tbl, tlen) /\
-    fill_header e st = [u8 (e_version e)] ++ ([0] ++ mb_write idx) ++ mb_write 106 ++ mb_write tlen ++ strtbl_construct tbl /\
+    strtbl_add (strtbl st) (strtbl_len st) p = (idx, tbl, tlen) /\
+    fill_header e st = [u8 (e_version e)] ++ ([0] ++ mb_write idx) ++ header_charset e ++ mb_write tlen ++ strtbl_construct tbl /\
     (tinv st -> tbl_size tbl < 4294967296 ->
        (offsets_from 0 tbl /\ tlen = len (strtbl_construct tbl)) /\ exists x, In x tbl /\ s_off x = idx /\ s_str x = p).
 Proof. exact fill_header_textual_strtbl. Qed.
